@@ -106,6 +106,9 @@ func runBehaviour(p eng.Profile, b behaviour, extraRestarts int, res *engOutput)
 	}
 	offModel := false // after the first disagreement with the model only self-consistency is checked
 	for i, st := range steps {
+		if x, _ := st.Op["extra"].(bool); x && r.Dirty {
+			break // an uncommitted import is not expected to survive a restart
+		}
 		got, err := r.Exec(st.Op)
 		res.Steps++
 		if err != nil {
